@@ -41,15 +41,25 @@ template <class V> static bool setString(Ctx& c, V v, const std::string& s) {
     default: { std::string tmp = s; bool r = v.set(tmp); tmp.assign(tmp.size(), 'Z'); return r; }
   }
 }
+// a sized key may point INTO a longer buffer that was earlier given to the document as a linked string (same address,
+// shorter length): the key is still just its own bytes
+static const char* aliasPrefix(Ctx& c, const std::string& k) {
+  if (k.empty()) return nullptr;
+  for (const std::string& e : c.pool)
+    if (e.size() > k.size() && e.compare(0, k.size(), k) == 0) return e.c_str();
+  return nullptr;
+}
 template <class F> static auto withKey(Ctx& c, const std::string& k, F f) {
   bool hasNul = k.find('\0') != std::string::npos;
   switch (hasNul ? 0 : effKind(c)) {
     case 1: c.pool.push_back(k); return f(c.pool.back().c_str());
     case 2: { c.pool2.emplace_back(k.begin(), k.end()); c.pool2.back().push_back(0); std::vector<char> tmp = c.pool2.back();
               auto r = f((char*)tmp.data()); return r; }
-    case 3: { std::string tmp = k; return f(JsonString(tmp.c_str(), tmp.size(), JsonString::Copied)); }
+    case 3: { if (const char* a = aliasPrefix(c, k)) return f(JsonString(a, k.size(), JsonString::Copied));
+              std::string tmp = k; return f(JsonString(tmp.c_str(), tmp.size(), JsonString::Copied)); }
     case 4: { ::String as(k.c_str()); return f(as); }
-    case 6: { std::string tmp = k; std::string_view sv(tmp); return f(sv); }
+    case 6: { if (const char* a = aliasPrefix(c, k)) return f(std::string_view(a, k.size()));
+              std::string tmp = k; std::string_view sv(tmp); return f(sv); }
     default: { std::string tmp = k; return f(tmp); }
   }
 }
